@@ -190,6 +190,11 @@ func runPollQueueSchedule(run *vk.Run, g *gate, prod []int, c2 int) {
 		b, _, queued := check()
 		return queued == 0 || len(b) == 0
 	})
+	// a consumer may have taken packets from the queue without having reported them yet: wait for the books to balance
+	vk.WaitUntil(2*time.Second, func() bool {
+		_, g, queued := check()
+		return len(g)+queued >= len(added)
+	})
 	blocked, got, queued := check()
 	run.Count("pollQueue_schedules", 1)
 	wit := map[string]any{"queue": "pollQueue", "producers": placements(prod), "consumer2": c2Name(c2), "added": added, "returned": got, "still_queued": queued, "blocked_consumers": blocked}
